@@ -1762,6 +1762,94 @@ func (m *Model) ruleRMW(r *Results) {
 		if nExists == 0 {
 			r.undecided(rule, "path-exists refusal", "-", "no function returns sgbucket.ErrPathExists")
 		}
+		// (f') an insert-only loop (the bool parameter under which ErrPathExists is produced) never
+		// writes when its read failed: with that parameter true, no write-back is reachable from the
+		// edge on which the read's error was found non-nil (a missing - e.g. deleted - document is
+		// refused, not created)
+		for _, lp := range loops {
+			fn := lp.Fn
+			if lp.Outer != nil {
+				continue
+			}
+			var ins *ssa.Parameter
+			for _, b := range fn.Blocks {
+				for _, in2 := range b.Instrs {
+					ld, ok := in2.(*ssa.UnOp)
+					if !ok || ld.Op != token.MUL {
+						continue
+					}
+					g, ok := ld.X.(*ssa.Global)
+					if !ok || g.Name() != "ErrPathExists" || g.Pkg == nil || g.Pkg.Pkg.Path() != sgbucketPath {
+						continue
+					}
+					for _, ct := range controllingConds(fn, b) {
+						cd := condOf(ct.If)
+						if cd.Op != token.ILLEGAL || cd.X == nil {
+							continue
+						}
+						if pp, ok := stripConv(cd.X).(*ssa.Parameter); ok && pp.Parent() == fn && ct.Branch != cd.Neg {
+							if bt, ok := pp.Type().Underlying().(*types.Basic); ok && bt.Kind() == types.Bool {
+								ins = pp
+							}
+						}
+					}
+				}
+			}
+			if ins == nil {
+				continue
+			}
+			c := newCut()
+			for _, iff := range allIfs(fn) {
+				cd := condOf(iff)
+				if cd.Op == token.ILLEGAL && cd.X != nil && stripConv(cd.X) == ssa.Value(ins) {
+					c.cutEdge(iff.Block(), cd.succWhen(false))
+				}
+			}
+			for _, rd := range lp.Reads {
+				c.cutBlock(rd.Block())
+			}
+			for _, rd := range lp.Reads {
+				errV := writeErrValue(rd)
+				if errV == nil {
+					continue
+				}
+				bad := ""
+				for _, iff := range allIfs(fn) {
+					cd := condOf(iff)
+					eq, ok := cd.equalEdge()
+					if !ok || !(isNilConst(cd.X) || isNilConst(cd.Y)) {
+						continue
+					}
+					other := cd.X
+					if isNilConst(cd.X) {
+						other = cd.Y
+					}
+					if stripConv(other) != errV && !flowsThroughPhi(errV, other) {
+						continue
+					}
+					for _, sx := range iff.Block().Succs {
+						if sx == eq || c.edges[edge{iff.Block().Index, sx.Index}] {
+							continue
+						}
+						reach := reachableFrom(sx, c)
+						for _, w := range lp.Writes {
+							site := w
+							if v, ok := lp.Via[w]; ok {
+								site = v
+							}
+							if site.Parent() == fn && reach[site.Block().Index] {
+								bad = m.instrPos(site)
+							}
+						}
+					}
+				}
+				callee := "?"
+				if f := rd.Common().StaticCallee(); f != nil {
+					callee = f.Name()
+				}
+				r.check(bad == "", rule, m.declName(fn)+" / insert-only never writes when the read via "+callee+" failed", m.instrPos(rd), "with the insert-only parameter set, no write-back is reachable from the read's error edge", "with the insert-only parameter set the write-back at "+bad+" is reachable although the read reported an error (the document is missing, e.g. deleted): the insert creates or resurrects the document instead of being refused")
+			}
+		}
 	}
 	// (g) in a loop that sets or removes one entry of a container it read ("value == nil removes"),
 	// the set and the remove address the same container and key
